@@ -226,17 +226,18 @@ def parseLoop : Nat → Nat → List Nat → List Nat → Nat → Res (List (Nat
     if c = 37 then
       match rest with
       | [] => .err .incomplete (i + 1)
-      | 37 :: rest' => parseLoop fuel (i + 2) rest' (lit ++ [37]) partIndex
-      | _ :: _ =>
-        match parseSpec (i + 1) rest with
-        | .err k j => .err k j
-        | .panic => .panic
-        | .ok (spec, i', rest') =>
-          let partIndex' := if rest'.isEmpty then partIndex else i'
-          match parseLoop fuel i' rest' [] partIndex' with
-          | .ok ps => .ok (flushLit partIndex lit ++ (i, .spec spec) :: ps)
+      | d :: rest' =>
+        if d = 37 then parseLoop fuel (i + 2) rest' (lit ++ [37]) partIndex
+        else
+          match parseSpec (i + 1) (d :: rest') with
           | .err k j => .err k j
           | .panic => .panic
+          | .ok (spec, i', rest'') =>
+            let partIndex' := if rest''.isEmpty then partIndex else i'
+            match parseLoop fuel i' rest'' [] partIndex' with
+            | .ok ps => .ok (flushLit partIndex lit ++ (i, .spec spec) :: ps)
+            | .err k j => .err k j
+            | .panic => .panic
     else parseLoop fuel (i + 1) rest (lit ++ [c]) partIndex
 
 /-- `CFormatString::from_str` (scalar values) and `CFormatBytes::parse_from_bytes` (bytes) -/
@@ -419,21 +420,28 @@ def formatGeneral (precision bits : Nat) (upper alt : Bool) : Option (List Nat) 
         | none => none
         | some t => some (removeRedundant t alt ++ decimalPointOrEmpty p alt)
 
+/-- the precision `format_float` passes on (default 6) -/
+def floatPrecision (spec : Spec) : Nat :=
+  match spec.prec with
+  | some (.quantity (.amount a)) => a
+  | some (.quantity .star) => 6
+  | some .dot => 0
+  | none => 6
+
+/-- `magnitude_string` of `format_float`: the text of `num.abs()`; `none` = panic -/
+def floatBody (spec : Spec) (bits : Nat) : Option (List Nat) :=
+  let precision := floatPrecision spec
+  let mag := bits % 2 ^ 63          -- `num.abs()`
+  match spec.ftype with
+  | .float .fix up => formatFixed precision mag up spec.flags.alt
+  | .float .exp up => formatExponent precision mag up spec.flags.alt
+  | .float .gen up => formatGeneral (if precision = 0 then 1 else precision) mag up spec.flags.alt
+  | _ => none                       -- `unreachable!()`
+
 /-- `format_float`; `bits` is `f64::to_bits` -/
 def formatFloat (spec : Spec) (bits : Nat) : Option (List Nat) :=
   let signStr := if PV.Dec.isNeg bits && !PV.Dec.isNan bits then [45] else signString spec.flags
-  let precision := match spec.prec with
-    | some (.quantity (.amount a)) => a
-    | some (.quantity .star) => 6
-    | some .dot => 0
-    | none => 6
-  let mag := bits % 2 ^ 63          -- `num.abs()`
-  let body := match spec.ftype with
-    | .float .fix up => formatFixed precision mag up spec.flags.alt
-    | .float .exp up => formatExponent precision mag up spec.flags.alt
-    | .float .gen up => formatGeneral (if precision = 0 then 1 else precision) mag up spec.flags.alt
-    | _ => none
-  match body with
+  match floatBody spec bits with
   | none => none
   | some body => some (padSigned spec signStr body)
 
